@@ -18,6 +18,7 @@ Theorem C17_tbs_is_rfc : forall (c : cose1) (det aad : option bytes),
     | None => match c_payload c with Some _ => PErr DoublePayload | None => PErr NoPayload end
     end.
 Proof. exact prepare_is_rfc. Qed.
+Print Assumptions C17_tbs_is_rfc.
 
 (* finalising inserts the supplied signature unchanged and touches nothing else *)
 Theorem C17_finalize_unchanged : forall (c : cose1) (sg : bytes),
@@ -25,9 +26,11 @@ Theorem C17_finalize_unchanged : forall (c : cose1) (sg : bytes),
   c_unprotected (finalize c sg) = c_unprotected c /\ c_payload (finalize c sg) = c_payload c /\
   c_tagged (finalize c sg) = c_tagged c.
 Proof. exact finalize_unchanged. Qed.
+Print Assumptions C17_finalize_unchanged.
 
 Theorem C17_wire_roundtrip : forall tag c, cose1_of_cbor tag (cose1_to_cbor tag c) = Some c.
 Proof. exact cose1_wire_roundtrip. Qed.
+Print Assumptions C17_wire_roundtrip.
 
 (* different (context, protected, AAD, payload) give different to-be-signed bytes *)
 Theorem C17_tbs_injective : forall ctx p a m ctx' p' a' m',
@@ -36,6 +39,7 @@ Theorem C17_tbs_injective : forall ctx p a m ctx' p' a' m',
   tbs_structure ctx p a m = tbs_structure ctx' p' a' m' ->
   ctx = ctx' /\ p = p' /\ a = a' /\ m = m'.
 Proof. exact tbs_injective. Qed.
+Print Assumptions C17_tbs_injective.
 
 (* verification succeeds exactly when: the protected algorithm (if any) is the verifier's, exactly
    one payload is given, the signature bytes parse, and the verifier accepts them over the RFC
@@ -47,11 +51,13 @@ Theorem C17_verify_iff : forall ctx (v : verifier) (c : cose1) (det aad : option
             v_parse v (c_sig c) = true /\
             v_check v (tbs_structure ctx (c_protected c) (aad_or_empty aad) p) (c_sig c) = true.
 Proof. exact verify_iff. Qed.
+Print Assumptions C17_verify_iff.
 
 Theorem C17_exactly_one_payload : forall ctx v c det aad,
   verify ctx v c det aad = VSuccess ->
   (c_payload c <> None /\ det = None) \/ (c_payload c = None /\ det <> None).
 Proof. exact exactly_one_payload. Qed.
+Print Assumptions C17_exactly_one_payload.
 
 (* a protected algorithm different from the verifier's (another integer, incl. private use, or a text identifier) is refused *)
 Theorem C17_alg_mismatch_refused : forall ctx v c det aad,
@@ -59,18 +65,21 @@ Theorem C17_alg_mismatch_refused : forall ctx v c det aad,
   (exists s, alg_of_protected (c_protected c) = AlgText s) ->
   verify ctx v c det aad = VFailAlg.
 Proof. exact alg_mismatch_refused. Qed.
+Print Assumptions C17_alg_mismatch_refused.
 
 Theorem C17_not_authentic_refused : forall ctx v c det aad p,
   exactly_one (c_payload c) det = Some p ->
   v_check v (tbs_structure ctx (c_protected c) (aad_or_empty aad) p) (c_sig c) = false ->
   verify ctx v c det aad <> VSuccess.
 Proof. exact not_authentic_refused. Qed.
+Print Assumptions C17_not_authentic_refused.
 
 Theorem C17_honest_verifies : forall ctx v c det aad tbs sg,
   alg_gate v (alg_of_protected (c_protected c)) = true ->
   prepare ctx c det aad = POk tbs -> v_parse v sg = true -> v_check v tbs sg = true ->
   verify ctx v (finalize c sg) det aad = VSuccess.
 Proof. exact honest_verifies. Qed.
+Print Assumptions C17_honest_verifies.
 
 (* non-vacuity: a private-use algorithm (-70000) in the protected bucket {1: -70000} is refused by an ES256 verifier *)
 Example C17_ex_private_alg :
